@@ -435,6 +435,130 @@ def _simplify(case):
             yield c
 
 
+# ---------------------------------------------------------------------------
+# multi-task schedulers (train_uts / train_smt / train_active_mt with real backbones)
+
+def build_sched(sched, seed):
+    """Scheduler case.  SMT cases are constructed so that tasks leave the training pool
+    during stage 1 (every task counts as solved after one episode) while several
+    never-trained tasks tie for the lowest performance in the main pool: the moment
+    at which a tie-break decides which task is trained next."""
+    r = np.random.default_rng([int(seed), sum(map(ord, sched))])
+    n = int(r.choice([4, 5, 6]))
+    kind = str(r.choice(["discrete", "vector"]))
+    scr = [[[int(r.choice([2, 3, 4])), str(r.choice(["term", "trunc"]))] for _ in range(int(r.integers(1, 3)))]
+           for _ in range(1 if kind == "discrete" else n)]
+    backbone = str(r.choice(["train_ddpg", "train_td3"] if sched != "uts" else ["train_td3", "train_sac"]))
+    budget = int(r.integers(28, 41))
+    case = {"sched": sched, "taskset": kind, "n_tasks": n, "scripts": scr, "script_seed": int(r.integers(0, 999)),
+            "interval": 1, "budget": budget, "learning_starts": int(r.choice([3, 6])), "seed": int(r.integers(0, 99)),
+            "backbone": backbone,
+            "cfg": {"learning_starts": 0, "batch_size": 2, "buffer_size": 200, "net_seed": int(r.integers(0, 50)),
+                    "update_frequency": 1, "target_update_frequency": 2, "policy_delay": 1, "gradient_steps": 1,
+                    "target_delay": 2, "use_checkpoints": 0}}
+    case["cfg"]["learning_starts"] = case["learning_starts"]
+    if sched == "smt":
+        case.update({"b1": budget - 6, "b2": 6, "K": 2, "n_average": 1, "kappa": 0.5,
+                     "solved": -1e9, "unsolvable": 1e9})
+    if sched == "amt":
+        case.update({"selector": str(r.choice(["Round Robin", "1-step Progress", "Best Reward", "Diversity"])),
+                     "r_max": 10.0, "ducb_gamma": 0.95, "xi": 0.5})
+    return case
+
+
+def execute_sched(case):
+    import warnings
+
+    import gymnasium as gym
+    from rl_blox.blox.replay_buffer import MultiTaskReplayBuffer, ReplayBuffer
+
+    from vlib import routines_c11 as R11
+
+    sched, n, budget = case["sched"], case["n_tasks"], case["budget"]
+    space = R11.box_space()
+    scripts_ = case["scripts"] if case["taskset"] == "vector" else case["scripts"][:1] * n
+    ts, log, _, task_of, envs = R11.make_task_set(case["taskset"], scripts_, case["script_seed"], space,
+                                                 3 * budget + 60)
+    ad = R11.ADAPTERS[case["backbone"]](dict(case["cfg"]))
+    ad.setup(envs[0])
+    bb = ad.partial()
+    mtrb = MultiTaskReplayBuffer(ReplayBuffer(200), n)
+    out = {}
+    with warnings.catch_warnings():
+        warnings.simplefilter("ignore")
+        if sched == "uts":
+            from functools import partial
+
+            from rl_blox.algorithm.uniform_task_sampling import train_uts
+
+            res = train_uts(ts, partial(bb, replay_buffer=ad.rb), total_timesteps=budget,
+                            episodes_per_task=case["interval"], seed=case["seed"],
+                            exploring_starts=case["learning_starts"], progress_bar=False)
+            _digest_obj("result.global_step", getattr(res, "global_step", None), out)
+            _digest_obj("buffer", ad.rb, out)
+        elif sched == "smt":
+            from rl_blox.algorithm.smt import train_smt
+
+            _, training_steps, perf = train_smt(
+                ts, bb, mtrb, b1=case["b1"], b2=case["b2"], solved_threshold=case["solved"],
+                unsolvable_threshold=case["unsolvable"], scheduling_interval=case["interval"], kappa=case["kappa"],
+                K=case["K"], n_average=case["n_average"], learning_starts=case["learning_starts"],
+                seed=case["seed"], progress_bar=False)
+            _digest_obj("result.training_steps", np.asarray(training_steps), out)
+            _digest_obj("result.performance", np.asarray(perf, dtype=np.float64), out)
+            _digest_obj("buffer", mtrb, out)
+        else:
+            from rl_blox.algorithm.active_mt import train_active_mt
+
+            _, training_steps = train_active_mt(
+                ts, bb, mtrb, r_max=case["r_max"], ducb_gamma=case["ducb_gamma"], xi=case["xi"],
+                task_selector=case["selector"], total_timesteps=budget, scheduling_interval=case["interval"],
+                learning_starts=case["learning_starts"], seed=case["seed"], progress_bar=False)
+            _digest_obj("result.training_steps", np.asarray(training_steps), out)
+            _digest_obj("buffer", mtrb, out)
+    steps = [e for e in log.events if e["kind"] == "step"]
+    out["envlog.n_steps"] = str(len(steps))
+    out["envlog.actions"] = _h(b"|".join(np.asarray(e["action"]).tobytes() for e in steps))
+    out["envlog.task_sequence"] = _h(repr([task_of(e) for e in steps]).encode())
+    _digest_obj("state", list(ad.tracked), out)
+    tasks = sorted({task_of(e) for e in steps})
+    return out, {"tasks_trained": len(tasks), "steps": len(steps)}
+
+
+def run_sched_pair(case):
+    name = {"uts": "train_uts", "smt": "train_smt", "amt": "train_active_mt"}[case["sched"]]
+    a, info = execute_sched(case)
+    with _Perturb(1):
+        b, _ = execute_sched(case)
+    d = _diff(a, b)
+    if d:
+        kinds = sorted({_key_class(k) for k in d})
+        check(False, f"{name}.rerun_differs.{'+'.join(kinds)}",
+              f"two runs from identical seeds / initial state / task set differ in {len(d)} of {len(a)} compared "
+              f"items, e.g. {d[:6]}")
+    with _Perturb(2):
+        c, _ = execute_sched(dict(case, seed=case["seed"] + 1))
+    differs = bool(_diff(a, c))
+    nt = differs and info["tasks_trained"] >= 3
+    return Outcome(labels=[name, case["backbone"], case["taskset"], f"tasks-trained={min(info['tasks_trained'], 4)}",
+                           "seed-sensitive" if differs else "seed-insensitive"],
+                   nontrivial=nt, fp=case)
+
+
+def _sched_strategy(sched):
+    def s():
+        return gen.seeds().map(lambda z: build_sched(sched, z))
+    return s
+
+
+def _ssub(sched, quick, thorough):
+    return SubCheck("sched_" + sched, _sched_strategy(sched), run_sched_pair, quick=quick, thorough=thorough,
+                    shards=quick, shards_thorough=8, shrink=False, suppress_too_slow=True, cost=9.0,
+                    min_nontrivial_frac=0.5,
+                    rule=">= 3 tasks trained and a run with seed+1 differs; SMT cases refill the training pool while "
+                         "never-trained tasks tie for the lowest performance")
+
+
 def _sub(name, quick, thorough, cost):
     return SubCheck(name, _strategy((name,)), run_pair, quick=quick, thorough=thorough, shards=quick,
                     shards_thorough=8, shrink=False, suppress_too_slow=True, simplify=_simplify, cost=cost,
@@ -456,4 +580,5 @@ SUBCHECKS = (
     [_sub(n, 2, 20, _COST.get(n, 3.0)) for n in
      R.DQN_FAMILY + R.CONTINUOUS_OFF_POLICY + ("reinforce", "actor_critic", "a2c", "ppo") + R.TABULAR + ("cmaes",)]
     + [_xsub(n, 10.0) for n in ("td3", "sac", "ddqn_per", "td7", "mrq", "ppo", "dynaq", "cmaes")]
+    + [_ssub("smt", 3, 24), _ssub("uts", 2, 16), _ssub("amt", 2, 16)]
 )
